@@ -184,15 +184,27 @@ pub struct PropMeta {
 
 pub fn meta(prop: &str) -> PropMeta {
     match prop {
-        "C01" | "C02" | "C04" | "C05" | "C06" | "C18" => PropMeta {
+        "C01" | "C02" | "C04" | "C18" => PropMeta {
             level: "exploration",
-            rule: "rt-grid: 13 types x parts 1..=6 x points/part 1..=8 x {Direct, BufWriter} x {with,without shx}, enumerated; rt-large (C01 C02 C04 C18): files of 1023..10000 records, shapes of 1023..2049 parts and of 1023..8193 points per part, around the readers' internal limits; rt-seeded: one seeded scenario per run (type, 0..40 shapes via public constructors, swarm-drawn float classes, finalize placement, ending, stacks, chunk/EINTR schedules). A run counts as non-trivial if it wrote at least one shape; distinct = distinct (type, per-shape part-length signature, writer stack, call pattern, reader stack) tuples by hash.",
+            rule: "rt-grid: 13 types x parts 1..=6 x points/part 1..=8 x {Direct, BufWriter(7), BufWriter(8192)} x {with,without shx}, enumerated; rt-large: files of 1023..10000 records, shapes of 1023..2049 parts and of 1023..8193 points per part, around the readers' internal limits; rt-seeded: one seeded scenario per run (type, 0..40 shapes via public constructors, swarm-drawn float classes incl. +-0, subnormals, +-inf, sentinels, no-data neighbourhood, NaN in Z/M; finalize placement; ending by drop / finalize+drop / write_shapes; writer and reader stacks; chunk/EINTR schedules on all four devices; by-path routes over pre-existing longer files in 1/16 of the runs). A run is non-trivial if it wrote at least one shape; distinct = distinct (type, per-shape part-length signature, writer stack, call pattern, reader stack) tuples by hash.",
+            explanation: "Fault-free configuration of the simulator with must-be-masked transfer schedules: the real writer runs against simulated devices, the bytes are judged by an independent decoder and read back through every reading route of the real reader. Simulated time = device operations (logical_steps); the code under test has no clock.",
+            exhaustive: false,
+        },
+        "C05" => PropMeta {
+            level: "exploration",
+            rule: "rt-grid: 13 types x parts 1..=6 x points/part 1..=8 x {Direct, BufWriter(7), BufWriter(8192)} x {with,without shx}, enumerated; rt-large: files of 1023..10000 records, shapes of 1023..2049 parts and of 1023..8193 points per part, around the readers' internal limits; rt-seeded: one seeded scenario per run (type, 0..40 shapes via public constructors, swarm-drawn float classes incl. +-0, subnormals, +-inf, sentinels, no-data neighbourhood, NaN in Z/M; finalize placement; ending by drop / finalize+drop / write_shapes; writer and reader stacks; chunk/EINTR schedules on all four devices; by-path routes over pre-existing longer files in 1/16 of the runs). A run is non-trivial if it wrote at least one shape; distinct = distinct (type, per-shape part-length signature, writer stack, call pattern, reader stack) tuples by hash. hw-seeded: seeded writer histories (1..5 shapes, up to 12 calls, finalize anywhere, rejected writes) so that the extreme falls before/after an intermediate finalize; wfault-c05: seeded histories with a one-shot fault on the first device operation of a non-first write_shape (the call fails having transferred nothing), after which the history goes on.",
+            explanation: "Fault-free configuration of the simulator with must-be-masked transfer schedules: the real writer runs against simulated devices, the bytes are judged by an independent decoder and read back through every reading route of the real reader. Simulated time = device operations (logical_steps); the code under test has no clock. C05 oracle: independent min/max (compared with ==) over the captured vertices against the constructed box, the record box, header bytes 36..100 and the reader\'s header; M range judged only when every measure is real data; no NaN runs.",
+            exhaustive: false,
+        },
+        "C06" => PropMeta {
+            level: "exploration",
+            rule: "rt-grid: 13 types x parts 1..=6 x points/part 1..=8 x {Direct, BufWriter(7), BufWriter(8192)} x {with,without shx}, enumerated; rt-large: files of 1023..10000 records, shapes of 1023..2049 parts and of 1023..8193 points per part, around the readers' internal limits; rt-seeded: one seeded scenario per run (type, 0..40 shapes via public constructors, swarm-drawn float classes incl. +-0, subnormals, +-inf, sentinels, no-data neighbourhood, NaN in Z/M; finalize placement; ending by drop / finalize+drop / write_shapes; writer and reader stacks; chunk/EINTR schedules on all four devices; by-path routes over pre-existing longer files in 1/16 of the runs). A run is non-trivial if it wrote at least one shape; distinct = distinct (type, per-shape part-length signature, writer stack, call pattern, reader stack) tuples by hash. c03-sweep and foreign-seeded: files from the reference encoder incl. null records. On every well-formed file: the full 13 x 13 matrix of (requested type, file type) for read_as vs convert_shapes_to_vec_of(read()), drained iter_shapes_as for every wrong type, TryFrom<Shape> into all 13 types for every value, shapetype() of value and of type.",
             explanation: "Fault-free configuration of the simulator with must-be-masked transfer schedules: the real writer runs against simulated devices, the bytes are judged by an independent decoder and read back through every reading route of the real reader. Simulated time = device operations (logical_steps); the code under test has no clock.",
             exhaustive: false,
         },
         "C03" => PropMeta {
             level: "exploration",
-            rule: "c03-sweep: 14 type codes x every combination of present/absent optional M over 3 records x {normal, zero parts, one-vertex parts, zero-vertex parts} x {with, without trailing bytes}, enumerated; foreign-seeded: one seeded file per run from the reference encoder (any of the 14 codes, 0..6 records, null records interleaved, 0..4 parts of 0..7 vertices, any float bit pattern incl. NaN in X/Y, arbitrary stored boxes and record numbers, optional M per record, bytes after the declared length, short-read/EINTR schedules, BufReader capacities). non-trivial = at least one record; distinct = distinct (type, per-record (type, M present, part lengths), order, filler lengths, trailing length) tuples.",
+            rule: "c03-sweep: 14 type codes x every combination of present/absent optional M over 3 records x {normal, zero parts, one-vertex parts, zero-vertex parts} x {with, without trailing bytes}, enumerated; foreign-large: 5000 records incl. null records, 1025..2049 parts incl. empty and one-vertex parts, 1024..3000 points per part; foreign-seeded: one seeded file per run from the reference encoder (any of the 14 codes, 0..6 records, null records interleaved, 0..4 parts of 0..7 vertices, any float bit pattern incl. NaN in X/Y, arbitrary stored boxes and record numbers, optional M per record, bytes after the declared length, short-read/EINTR schedules, BufReader capacities). non-trivial = at least one record; distinct = distinct (type, per-record (type, M present, part lengths), order, filler lengths, trailing length) tuples.",
             explanation: "Stub producer, real consumer: the file comes from the independent reference encoder, the real reader decodes it from a simulated source. Oracle: same record count and order, parts, patch kinds, coordinates bit-identical with absent M reported as NO_DATA and present M normalised, stored box returned as stored, no read beyond the declared length (Direct stack, from the device event log).",
             exhaustive: false,
         },
@@ -204,13 +216,13 @@ pub fn meta(prop: &str) -> PropMeta {
         },
         "C08" => PropMeta {
             level: "exploration",
-            rule: "pair-sweep: 13 types x all histories up to length 4 (quick) / 5 (thorough) over {good pair a, good pair b, shape of another type, row missing a field, row with a value of the wrong field type} (a wrong-type shape never first) x ending {drop, write_shapes_and_records} x {Direct, BufWriter(64)}, enumerated completely, by-path route (Writer::from_path, Reader::from_path, shapefile::read) on the length-2 histories without failing rows; pair-seeded: seeded histories up to length 10 with generated shapes and stacks. distinct = distinct (type, history, ending, stack) tuples.",
+            rule: "pair-sweep: 13 types x all histories up to length 4 (quick) / 5 (thorough) over {good pair a, good pair b, shape of another type, row missing a field, row with a value of the wrong field type} (a wrong-type shape never first) x ending {drop, write_shapes_and_records} x {Direct, BufWriter(64)}, enumerated completely, by-path route (Writer::from_path over pre-existing longer files, Reader::from_path, shapefile::read) on the length-2 histories without failing rows; pair-large: 1025, 4097 and 6000 pairs in one file; pair-seeded: seeded histories up to length 10 with generated shapes and stacks. distinct = distinct (type, history, ending, stack) tuples.",
             explanation: "The complete Writer runs on three simulated devices. After every call (Direct stack) the three files are scanned physically and independently (records from byte 100, index entries, whole rows after the dbf header + stray bytes); at the end the counts come from the independent decoders and the dbf header, and the complete Reader must return exactly the successfully written pairs, shape i with the row whose idx is i. Histories containing a failing row hit the two known findings listed in known_findings.jsonl.",
             exhaustive: true,
         },
         "C15" => PropMeta {
             level: "exploration",
-            rule: "all call sequences up to length 4 (quick) / 6 (thorough) over the 15-letter alphabet {iterate 0/1/2/all items, read_nth_shape(0..=3), read_nth_shape_as::<another type>(0..=1) (a random access that fails), seek(0..=3), shape_count} on files of n=3 records, for 10 configurations: {ShapeReader with index, ShapeReader without index, complete Reader with rows carrying their index} x {records of pairwise different sizes, records of equal size}, plus 4 configurations (ShapeReader with index, complete Reader) on files re-laid out so that the physical order differs from the index order (reversed with filler; rotated with filler that looks like a record header), enumerated completely (15 + 15^2 + 15^3 + 15^4 histories per configuration in the quick tier). distinct = distinct (configuration, history) pairs; evaluations = histories executed; logical_steps = reader calls.",
+            rule: "all call sequences up to length 4 (quick) / 6 (thorough) over the 15-letter alphabet {iterate 0/1/2/all items, read_nth_shape(0..=3), read_nth_shape_as::<another type>(0..=1) (a random access that fails), seek(0..=3), shape_count} on files of n=3 records (plus six configurations with n = 1, 2 and 4 records; the 4-record ones one call shorter), for 10 configurations: {ShapeReader with index, ShapeReader without index, complete Reader with rows carrying their index} x {records of pairwise different sizes, records of equal size}, plus 4 configurations (ShapeReader with index, complete Reader) on files re-laid out so that the physical order differs from the index order (reversed with filler; rotated with filler that looks like a record header), enumerated completely (15 + 15^2 + 15^3 + 15^4 histories per configuration in the quick tier). distinct = distinct (configuration, history) pairs; evaluations = histories executed; logical_steps = reader calls.",
             explanation: "Each history runs on the real reader over in-memory sources; every call's result is checked against a nondeterministic reference model whose state is the set of allowed positions of the next record: fresh / after random access = {0}, after seek(k) = {min(k,n)}, after an iteration that took items from p = {p+taken, 0}. Rows of the complete Reader must carry the index of their shape.",
             exhaustive: true,
         },
@@ -246,7 +258,7 @@ pub fn meta(prop: &str) -> PropMeta {
         },
         "C13" => PropMeta {
             level: "fault_enumeration",
-            rule: "one unit = one seeded valid file from the real writer (every type, 1..4 tagged shapes); every truncation length 0..=len of the .shp (read with and without index) and of the .shx; for each of 3 reader stacks (Direct, small BufReader, BufReader(8192)) x {with, without index}: every operation k of an undisturbed full traversal (open, iterate, read_nth every i) failed one-shot with a rotating error kind and with EINTR; every short-read chunk size x {no EINTR, EINTR every 2nd, every 5th call}; 8 seeded mixed schedules. distinct = distinct (file, fault/truncation, route) triples by hash.",
+            rule: "one unit = one seeded valid file from the real writer (every type, 1..4 tagged shapes); every truncation length 0..=len of the .shp (read with and without index) and of the .shx; for each of 3 reader stacks (Direct, small BufReader, BufReader(8192)) x {with, without index}: every operation k of an undisturbed full traversal (open, iterate, read_nth every i) failed one-shot with a rotating error kind and with EINTR; every short-read chunk size x {no EINTR, EINTR every 2nd, every 5th call}; 8 seeded mixed schedules; the same fault sweeps on two re-laid-out versions of each file (physical order != index order, so that the indexed traversal seeks); rfault-large: 8 files whose middle record has a part of 1025..2000 points or 1030 parts, with strides away from record boundaries. distinct = distinct (file, fault/truncation, route) triples by hash.",
             explanation: "Every reader call of the traversal is bracketed with its device events. Oracles: only genuine shapes at their positions; records wholly inside the retained bytes are returned; the cut record is Error::IoError; a hard source failure surfaces from the call in progress with that error; short reads / EINTR leave every result identical to the undisturbed traversal.",
             exhaustive: false,
         },
